@@ -663,5 +663,90 @@ theorem seqCorr (hF : F.WF) (as : List (LHS × Expr)) (hp : as.Perm F.assigns) :
     · rw [e, q_inj hF hR hR' (hq.trans hq'.symm)]
   · exact (List.nodup_append.mp hF.single_driver).2.1
 
+/-! ### declarations, inputs, power-up -/
+
+/-- the store declares every signal that denotes a net with that net's width (what `V.mkSim` sets up from the `wire` /
+    `reg` / port declarations of the text) -/
+def Declared (F : FlatDesign) (r : Rd) : Prop :=
+  ∀ x, x ∈ F.nodes → ∀ k, netOf x = some k → r.info (F.name x) = some { width := F.wd k }
+
+/-- a top-level input: a declared net that no child drives -/
+def isIn (F : FlatDesign) (k : Nat) : Prop :=
+  k ∈ F.nets ∧ (∀ kd, kd ∈ F.kinds → kd.out ≠ k) ∧ (∀ R, R ∈ F.regs → R.leaf.q ≠ k)
+
+theorem infoOK (hF : F.WF) (as : List (LHS × Expr)) (hp : as.Perm F.assigns) (r : Rd) (hd : F.Declared r) :
+    InfoOK F.netD (F.flatOf as).assigns F.net r := by
+  constructor
+  · intro a ha
+    cases aform_of_mem (hp.mem_iff.mp ha) with
+    | kind k hk =>
+      cases k with
+      | const v o =>
+        simp only [Kind.assign, Kind.lhs]
+        split
+        · rename_i hw
+          have hwd : widthOf r (F.nm o) = F.wd o := by
+            have := hd (.net o) (mem_nodes_net (hF.nets_kinds _ hk).1) o rfl
+            simp [widthOf, show F.name (.net o) = F.nm o from rfl] at this ⊢
+            simp [this]
+          constructor
+          · simp only [resolve, hwd, LHS.name]
+            have : F.wd o - 1 + 1 = F.wd o := by omega
+            simp [this]
+          · simp only [lhsWidth, hwd, LHS.name]; omega
+        · exact ⟨rfl, rfl⟩
+      | _ => exact ⟨rfl, rfl⟩
+    | _ => exact ⟨rfl, rfl⟩
+  · intro n k hn
+    obtain ⟨x, hx, e, hk⟩ := net_inv hn
+    rw [← e]; exact hd x hx k hk
+
+theorem isInput (hF : F.WF) (as : List (LHS × Expr)) (hp : as.Perm F.assigns) (k : Nat) (hk : F.isIn k) :
+    IsInput (F.flatOf as) F.regs F.net k (F.nm k) := by
+  have hx := mem_nodes_net (F := F) hk.1
+  have hnd : Node.net k ∉ F.driven := by
+    intro hd
+    rcases driven_inv hd with ⟨kd, hkd, e⟩ | ⟨R, hR, e | e | e | e | ⟨e, _⟩ | ⟨e, _⟩⟩
+    · exact hk.2.1 kd hkd (Node.net.inj e).symm
+    · cases e
+    · exact hk.2.2 R hR (Node.net.inj e).symm
+    · cases e
+    · cases e
+    · cases e
+    · cases e
+  have hu : F.nm k ∉ F.assigns.map tgt := (undriven_iff hF hx).mpr hnd
+  refine ⟨net_nm hF hk.1, fun h => hu ((hp.map tgt).mem_iff.mp h), ?_, hk.2.2⟩
+  intro n' hn' hu'
+  rcases undriven_net hF hn' (fun h => hu' ((hp.map tgt).mem_iff.mpr h)) with ⟨e, _⟩ | ⟨R, hR, _, hq⟩
+  · exact e
+  · exact absurd hq (hk.2.2 R hR)
+
+/-- the Verilog store at time 0: declarations; `reg rq = RV` initialised; the test bench drives every top-level input
+    with 0 (py4hw wires power up at 0) -/
+structure PowerUp0 (F : FlatDesign) (r : Rd) : Prop where
+  declared : F.Declared r
+  rq : ∀ R, R ∈ F.regs → r.val R.rq = ⟨F.wd R.leaf.q, R.leaf.rv % 2 ^ F.wd R.leaf.q, true⟩
+  inputs : ∀ k, F.isIn k → r.val (F.nm k) = ⟨F.wd k, 0, true⟩
+
+theorem powerUp (hF : F.WF) (as : List (LHS × Expr)) (hp : as.Perm F.assigns) (r : Rd) (h : F.PowerUp0 r) :
+    PowerUp F.netD (F.flatOf as) F.regs F.net r := by
+  refine ⟨infoOK hF as hp r h.declared, h.rq, ?_⟩
+  intro n k hn hu hq
+  rcases undriven_net hF hn (fun h' => hu ((hp.map tgt).mem_iff.mpr h')) with ⟨e, h1, h2, h3⟩ | ⟨R, hR, _, hq'⟩
+  · rw [e]; exact h.inputs k ⟨h1, h2, h3⟩
+  · exact absurd hq' (hq R hR)
+
+/-- the covered test-bench operations: pokes of top-level inputs with non-negative values, clk(n), re-sort -/
+def OpOK (F : FlatDesign) : Op → Prop
+  | .poke k v => F.isIn k ∧ 0 ≤ v
+  | _ => True
+
+theorem opOK (hF : F.WF) (as : List (LHS × Expr)) (hp : as.Perm F.assigns) (op : Op) (h : F.OpOK op) :
+    FlatM.OpOK (F.flatOf as) F.regs F.net F.nm op := by
+  cases op with
+  | poke k v => exact ⟨isInput hF as hp k h.1, h.2⟩
+  | clk n => trivial
+  | resort => trivial
+
 end FlatDesign
 end FlatM
